@@ -315,6 +315,17 @@ namespace chaiscript {
     };
   } // namespace detail
 
+#ifdef CHAISCRIPT_VERIF
+  namespace detail {
+    /// Verification switch: when set, Dispatch_Engine::get_object ignores the stored
+    /// lookup hint and always takes the by-name search path.
+    inline std::atomic<bool> &verif_ignore_lookup_hints() noexcept {
+      static std::atomic<bool> s_ignore{false};
+      return s_ignore;
+    }
+  } // namespace detail
+#endif
+
   namespace detail {
     struct Stack_Holder {
       // template <class T, std::size_t BufSize = sizeof(T)*20000>
@@ -509,6 +520,12 @@ namespace chaiscript {
         };
 
         uint_fast32_t loc = t_loc;
+
+#ifdef CHAISCRIPT_VERIF
+        if (verif_ignore_lookup_hints().load(std::memory_order_relaxed)) {
+          loc = 0;
+        }
+#endif
 
         if (loc == 0) {
           auto &stack = get_stack_data(t_holder);
